@@ -238,6 +238,30 @@ def run(chk):
                                     break
                     except Exception as ex:  # noqa
                         fails.append((fn.__name__, m, 'Newick %r does not parse: %s' % (nwk, type(ex).__name__)))
+    # matrices made by the library's own helper (squareform of a condensed vector, as in the documentation), several of them kept
+    # while others of the same size are made and while a larger analysis runs: each must still give the tree of its own distances
+    try:
+        from lingpy.algorithm import squareform as lib_squareform
+    except Exception:  # noqa
+        from lingpy.algorithm.misc import squareform as lib_squareform
+    gens = gen_u + gen_a
+    for b0 in range(0, min(len(gens), chk.n(240, 4000)), 4):
+        batch = [mats[idx][0] for idx, _ in gens[b0:b0 + 4]]
+        made = []
+        for m in batch:
+            n = len(m)
+            made.append(lib_squareform([m[i][j] for i in range(n) for j in range(i + 1, n)]))
+        big = mats[gens[(b0 + 7) % len(gens)][0]][0]
+        real_rows('_neighbor', big)
+        clustering.neighbor([list(r) for r in big], ['T%d' % j for j in range(len(big))])
+        for m, sq in zip(batch, made):
+            chk.evaluations += 1
+            if [list(map(float, r)) for r in sq] != [list(map(float, r)) for r in m]:
+                fails.append(('squareform', m, 'a matrix returned by squareform no longer holds its distances after later squareform calls / analyses: %r' % ([list(r) for r in sq][:3],)))
+                break
+            for which in ('_upgma', '_neighbor'):
+                if len(m) >= (2 if which == '_upgma' else 3) and real_rows(which, sq) != real_rows(which, m):
+                    fails.append((which, m, 'the tree built from squareform(condensed distances) differs from the tree built from the same distances as nested lists'))
     for idx, cladesG in gen_u:
         m = mats[idx][0]
         n = len(m)
